@@ -254,14 +254,14 @@ def ctor (s : DState) (op : String) (args : List Nat) (_raw : List String) : Opt
 
 def opHll (s : DState) (h : Hll.St) (bh : HashCfg) (op : String) (a : List Nat) : Out :=
   match op, a with
-  | "hll.add", [k] => match Hll.addHashed h (bh.hash [k]) with
+  | "hll.add", [k] => match Hll.addHashed h (bh.hashOne [k]) with
     | some h' => .upd (.hll h' bh)
     | none => .panic
   | "hll.addh", [k] => match Hll.addHashed h k with
     | some h' => .upd (.hll h' bh)
     | none => .panic
   | "hll.extend", xs =>
-    match xs.foldlM (fun h k => Hll.addHashed h (bh.hash [k])) h with
+    match xs.foldlM (fun h k => Hll.addHashed h (bh.hashOne [k])) h with
     | some h' => .upd (.hll h' bh)
     | none => .panic
   | "hll.addmany", [seed, n] =>
@@ -396,10 +396,10 @@ def qres2s : Quotient.Res → String
 
 def opQf (s : DState) (f : QfInst) (bh : HashCfg) (op : String) (a : List Nat) : Out :=
   match op, a with
-  | "qf.insert", [x] => match Quotient.insert f.q f.r f.st (bh.hash [x]) with
+  | "qf.insert", [x] => match Quotient.insert f.q f.r f.st (bh.hashOne [x]) with
     | some (st', r) => .upd (.qf { f with st := st' } bh) (qres2s r)
     | none => .panic
-  | "qf.query", [x] => match Quotient.query f.q f.r f.st (bh.hash [x]) with
+  | "qf.query", [x] => match Quotient.query f.q f.r f.st (bh.hashOne [x]) with
     | some r => .ans (b2s r)
     | none => .panic
   | "qf.union", [j] => match s.insts[j]? with
